@@ -27,6 +27,11 @@ pub assume_specification<T: std::cmp::PartialEq> [<[T]>::contains] (s: &[T], x: 
     ensures <T as PartialEqSpec>::obeys_eq_spec() ==> r == exists|i: int| 0 <= i < s@.len() && (#[trigger] s@[i]).eq_spec(x);
 broadcast use {vstd::std_specs::hash::group_hash_axioms, ax::axiom_string_ext};
 //@verify functions.contains
+// ---- size(): element / entry / byte count ----
+/// `ftx.error(format!(..{:?}.., value))` (R6 wrapper): the Debug text of a value is out of reach; the result is a FunctionError (lib.function_error)
+#[verifier::external_body]
+pub fn __ftx_error_dbg(ftx: &FunctionContext, v: &Value) -> (r: ExecutionError) ensures r is FunctionError { unimplemented!() }
+//@verify functions.size
 // ---- duration(): nom's parse_duration is out of reach; its result is the uninterpreted pd_spec (remaining text, nanoseconds) ----
 pub uninterp spec fn pd_spec(i: Seq<char>) -> Option<(Seq<char>, int)>;
 #[verifier::external_body] pub struct NomErr { _p: u8 }
